@@ -3,7 +3,7 @@ from __future__ import annotations
 
 import ast
 
-from ..core import call_name, norm
+from ..core import call_name, kwarg, norm
 from ..util import assigned_targets, parent_map
 
 EXPLANATION = """
@@ -14,7 +14,7 @@ and not per_einsum), resource_usage() reduces with maximum starting from 0; each
 is classified (+=, a + b, np.maximum, builtin max, sum) and compared with the table; (A2) both column
 families enter energy() exactly once: tensor-keyed columns for the Einsum's tensors plus "None" for
 compute, and the per-component leak columns (which have no tensor key); actions() uses the same tensor
-family. NOT decided: that the columns hold the right numbers (C04/C05).
+family. (A3) breakdown and Total columns carry the same single n_instances factor. NOT decided: that the columns hold the right numbers (C04/C05).
 """
 
 MP = "accelforge/mapper/FFM/mappings.py"
@@ -63,14 +63,33 @@ def check(ctx):
     ru = ctx.func(MP, "Mappings.resource_usage", R)
     for fi, what in ((en, "energy"), (ac, "actions")):
         acc = _accums(fi, "new_result")
-        ctx.require(len(acc) == 1, R, f"{fi.fq}: accumulations into new_result: {len(acc)}")
-        st, kind = acc[0]
-        ctx.check(kind == "add", R, fi, st, f"{what}() reduces dropped axes with `{kind}`: the breakdown no longer sums to the total", f"{what}: dropped axes reduced with +")
+        if not acc:
+            # aggregation delegated to a helper: accepted forms are a keyed += loop or pandas groupby(...).sum() that keeps None/NaN keys
+            helpers = [ctx.module(MP).funcs.get(call_name(c)) for c in fi.calls() if isinstance(c.func, ast.Name) and any(norm(a_) == "keep_indices" for a_ in c.args)]
+            helpers = [h for h in helpers if h is not None]
+            ctx.require(len(helpers) == 1, R, f"{fi.fq}: accumulations into new_result: 0 and no aggregation helper")
+            h = helpers[0]
+            gb = [c for c in h.calls("groupby")]
+            hacc = [x for x in h.stmts() if isinstance(x, ast.AugAssign) and isinstance(x.op, ast.Add)]
+            if gb:
+                dn = kwarg(gb[0], "dropna")
+                keeps_none = isinstance(dn, ast.Constant) and dn.value is False
+                summed = any(call_name(c) == "sum" for c in h.calls())
+                ctx.check(keeps_none and summed, R, h, gb[0], f"{what}() aggregates with pandas groupby without dropna=False: keys containing None (the tensor key of leak entries, which have no tensor) "
+                                                             f"are silently dropped, so per-tensor breakdowns no longer sum to the total", f"{what}: groupby(dropna=False).sum()")
+            else:
+                ctx.require(len(hacc) == 1, R, f"{h.fq}: aggregation form")
+                ctx.ok(R, h, hacc[0], f"{what}: dropped axes reduced with + (helper)")
+        else:
+            ctx.require(len(acc) == 1, R, f"{fi.fq}: accumulations into new_result: {len(acc)}")
+            st, kind = acc[0]
+            ctx.check(kind == "add", R, fi, st, f"{what}() reduces dropped axes with `{kind}`: the breakdown no longer sums to the total", f"{what}: dropped axes reduced with +")
         tot = [c for c in fi.calls("sum") if norm(c.args[0]) == "result.values()"]
         ctx.check(len(tot) == 1, R, fi, tot[0] if tot else fi.node, f"{what}() total is not sum(result.values())", f"{what}: total = sum of all entries")
         # the key projection keeps exactly the requested axes
         nk = [v for s in fi.stmts() for t, v, _ in assigned_targets(s) if isinstance(t, ast.Name) and t.id == "newkey"]
-        ctx.check(len(nk) == 1 and norm(nk[0]) == "tuple((key[i] for i in keep_indices))", R, fi, nk[0] if nk else fi.node, "the reduced key is not the projection of the full key on the requested axes", "key projected on the requested axes")
+        if acc:
+            ctx.check(len(nk) == 1 and norm(nk[0]) == "tuple((key[i] for i in keep_indices))", R, fi, nk[0] if nk else fi.node, "the reduced key is not the projection of the full key on the requested axes", "key projected on the requested axes")
     # latency
     cfg = ctx.cfg(la)
     accs = []
@@ -127,6 +146,45 @@ def check(ctx):
         ok = isinstance(loop, ast.For) and norm(loop.iter) == "einsum_accessed._get_keys_of_length(2)"
         ctx.check(ok, R, en, loop.iter if isinstance(loop, ast.For) else leak[0], "leak columns are not taken from the two-part (component, action) keys of the Einsum", "leak = two-part keys with action 'leak'")
     ctx.floor(R, 6)
+    _a3(ctx)
+
+
+def _a3(ctx):
+    R = "C28-A3"
+    ctx.doc(R, "breakdown columns and Total columns carry the same n_instances factor (so the accessors, which recompute totals from breakdowns, agree with the Total columns)")
+    from ..norm import Normaliser
+    RMF = "accelforge/model/run_model.py"
+    rm = ctx.func(RMF, "run_model", R)
+    N = Normaliser()
+    fam = {}
+    for st in rm.stmts():
+        for t, v, _ in assigned_targets(st):
+            tt = norm(t)
+            key = None
+            if tt in ("df['Total<SEP>latency']",):
+                key = ("latency", "total")
+            elif tt == "df[f'latency<SEP>{component}']":
+                key = ("latency", "breakdown")
+            elif tt in ("df['Total<SEP>dynamic_energy']", "df['Total<SEP>leak_energy']"):
+                key = ("energy", "total:" + tt)
+            elif tt == "df[energy2col(key)]":
+                key = ("energy", "breakdown")
+            elif tt in ("df[action2col(key)]", "actions_df[action2col(key)]"):
+                key = ("actions", "breakdown:" + tt)
+            if key and v is not None:
+                p = N.poly(v)
+                deg = [dict(m).get("n_instances", 0) for m, _ in p.monomials()]
+                fam.setdefault(key[0], []).append((st, key[1], deg))
+    ctx.require({"latency", "energy", "actions"} <= set(fam), R, f"column families found: {sorted(fam)}")
+    for name, items in fam.items():
+        degs = {tuple(d) for _, _, d in items}
+        for st, kind, d in items:
+            ctx.check(d == [1], R, rm, st, f"{name} column ({kind}) has n_instances degree {d}; its siblings have {sorted(degs)}: {name}() recomputed from the breakdown differs from the Total column by a factor n_instances",
+                      f"{name} {kind}: one factor n_instances")
+
+
+def check_a3_wrapper(ctx):
+    _a3(ctx)
 
 
 VARIANTS = [
@@ -163,6 +221,7 @@ VARIANTS = [
             ]:""", """            einsum_accessed = energy.access(einsum, col_idx=0)
             for tensor in list(self.spec.workload.einsums[einsum].tensor_names):""")]},
     {"kind": "F", "name": "latency-total-max", "rule": "C28-A1", "edits": [(MP, "                    summed = v if summed is None else summed + v", "                    summed = v if summed is None else np.maximum(summed, v)")]},
+    {"kind": "F", "name": "component-latency-without-n_instances", "rule": "C28-A3", "edits": [("accelforge/model/run_model.py", '            df[f"latency<SEP>{component}"] = cur_latency * n_instances', '            df[f"latency<SEP>{component}"] = cur_latency')]},
     {"kind": "S", "name": "commuted-add", "edits": [(MP, "                    summed = v if summed is None else summed + v", "                    summed = v if summed is None else v + summed")]},
     {"kind": "S", "name": "builtin-max-form", "edits": [(MP, "            usage[resource] = np.maximum(usage[resource], reservations[col])", "            usage[resource] = np.maximum(reservations[col], usage[resource])")]},
 ]
